@@ -62,7 +62,7 @@ class CallMixin:
                      "sorted", "next", "iter", "print", "type", "abs", "super", "callable", "object", "setattr", "float",
                      # spec-only
                      "old", "forall", "exists", "implies", "fresh", "allocated", "at_loop", "iff", "typeis", "seq_eq",
-                     "count", "distinct_seq", "ite", "subseteq", "same_elems", "box", "nonnull", "unchanged", "Seq", "some", "IntSeq", "countp", "prefixof", "suffixof", "strlen", "charat"}
+                     "count", "distinct_seq", "ite", "subseteq", "same_elems", "box", "nonnull", "unchanged", "Seq", "some", "IntSeq", "countp", "prefixof", "suffixof", "strlen", "charat", "ir_clean"}
 
     def _mod_consts(self, mod):
         c = self._consts_cache.get(mod)
@@ -97,6 +97,9 @@ class CallMixin:
     lib_models: dict = {}
     lib_consts: dict = {}
     lenient = False
+    ir_mutator_names = {"append", "extend", "remove", "insert", "insert_after", "insert_before", "pop", "clear", "sort", "add",
+                        "update", "popitem", "setdefault", "replace_input_with", "resize_inputs", "resize_outputs",
+                        "replace_all_uses_with", "register_initializer", "prepend", "reverse", "discard", "__setitem__", "__delitem__"}
 
     def module_attr(self, m: VModule, name, p):
         dotted = (m.name[4:] if m.name.startswith("ext:") else m.name) + "." + name
@@ -306,6 +309,16 @@ class CallMixin:
         if self.lenient:
             self.assumptions_used.add("lenient mode: calls into unmodelled libraries return arbitrary values, may raise, and have "
                                       "no effect on the modelled fields (used only for dominance/effect obligations)")
+            # ... except that a call of an IR mutator name on an unmodelled receiver that is not one of the function's
+            # own local containers may be an IR effect: the path is marked dirty (see ir_clean())
+            meth = f.what.rsplit(".", 1)[-1]
+            root = node.func if node is not None and hasattr(node, "func") else None
+            while isinstance(root, (ast.Attribute, ast.Subscript, ast.Call)):
+                root = root.value if not isinstance(root, ast.Call) else root.func
+            rootname = root.id if isinstance(root, ast.Name) else None
+            locals_ok = getattr(p.frame.fn, "local_containers", ()) if p.frame.fn is not None else ()
+            if meth in self.ir_mutator_names and rootname not in locals_ok:
+                p.ghost["$ir_dirty"] = f"{meth} on {rootname} at L{getattr(node, 'lineno', '?')}"
             q = p.copy()
             return [(p, VOpaque("result of " + f.what)), (q, Exc("AnyException", f"L{getattr(node, 'lineno', '?')}:{f.what}"))]
         raise Unsupported(f"call on opaque value {f.what} at L{getattr(node, 'lineno', '?')}")
@@ -419,6 +432,7 @@ class CallMixin:
         parent = cf.fn
         if parent is not None:
             fn.cover_fqn = parent.fqn if parent.mod is not None else getattr(parent, "cover_fqn", None)
+            fn.local_containers = getattr(parent, "local_containers", ())
             fn.ghost = getattr(parent, "ghost", None)
             fn._ghost_hits = getattr(parent, "_ghost_hits", set())
             fn.loops = parent.loops
@@ -583,6 +597,19 @@ class CallMixin:
         spec, ordinal = self.loop_spec(node, p)
 
         def k(q, itv):
+            if self.lenient and isinstance(itv, VOpaque):
+                # unknown number of arbitrary elements: evaluate the element expression once on a scratch path to see
+                # whether it could touch IR state (dirty mark) and produce an unmodelled container
+                scratch = q.copy()
+                for t in ([g.target] if isinstance(g.target, ast.Name) else list(ast.walk(g.target))):
+                    if isinstance(t, ast.Name):
+                        scratch.frame.locals[t.id] = VOpaque("element of unmodelled iterable")
+                exprs = ([node.elt] if kind != "dict" else [node.key, node.value]) + list(g.ifs)
+                for r_q, r_v in self.ev_list(exprs, scratch):
+                    if r_q.ghost.get("$ir_dirty"):
+                        q.ghost["$ir_dirty"] = r_q.ghost["$ir_dirty"]
+                q2 = q.copy()
+                return [(q, VOpaque("comprehension over unmodelled values")), (q2, Exc("AnyException", f"L{node.lineno}:comprehension"))]
             seq = self.iter_seq(itv, q) if not isinstance(itv, VTup) else self.to_seq(itv, q) if itv.items else None
             if seq is None:
                 return [(q, self._empty_result(kind, q))]
